@@ -296,12 +296,15 @@ def random_op(rng, impl, ti, *, labels, malformed=0.1, typed=False, ops=None, di
     mal = rng.random() < malformed
     kinds = ops or ["add"] * 5 + ["shortcut"] * 2 + ["addnode"] * 2 + ["addtree", "copykids", "move", "move", "move", "remove", "remove", "removechildren", "sort", "setdata", "setdata", "meta", "filter", "del", "del"]
     k = rng.choice(kinds)
-    if impl.graveyard and ((mal and rng.random() < 0.35) or (ops and "dead" in ops and rng.random() < 0.3)):
+    if impl.graveyard and (rng.random() < 0.05 or (mal and rng.random() < 0.35) or (ops and "dead" in ops and rng.random() < 0.3)):
         if True:
             # a call ON a stale reference (a node removed earlier): refused (AttributeError / AssertionError), nothing changes,
             # the removed node stays out of the tree
-            what = rng.choice(["move", "add", "remove", "set_data", "remove_children", "rename"])
-            return {"op": "w.dead", "t": ti, "k": rng.randrange(len(impl.graveyard)), "what": what, "to": rng.choice(allp), "a": rng.choice(labels)}
+            what = rng.choice(["move", "add", "add", "add", "remove", "set_data", "remove_children", "rename"])
+            # mostly one of the nodes that vanished last (a whole branch goes at once: its inner nodes too)
+            g = len(impl.graveyard)
+            k_ = g - 1 - rng.randrange(min(g, 6)) if rng.random() < 0.7 else rng.randrange(g)
+            return {"op": "w.dead", "t": ti, "k": k_, "what": what, "to": rng.choice(allp), "a": rng.choice(labels)}
     if k == "dead":
         k = "add"
     if not paths and k not in ("add", "addtree"):
@@ -413,6 +416,8 @@ def random_op(rng, impl, ti, *, labels, malformed=0.1, typed=False, ops=None, di
     if k == "remove":
         return {"op": "w.remove", "t": ti, "n": rng.choice(paths), "keep": rng.random() < 0.4, "clones": rng.random() < 0.3}
     if k == "removechildren":
+        if rng.random() < 0.25:
+            return {"op": "w.removechildren", "t": ti, "n": [], "tree_api": True}      # Tree.clear()
         return {"op": "w.removechildren", "t": ti, "n": rng.choice(allp if rng.random() < 0.2 else paths), "tree_api": rng.random() < 0.7}
     if k == "sort":
         op = {"op": "w.sort", "t": ti, "n": rng.choice(allp), "reverse": rng.random() < 0.4, "tree_api": rng.random() < 0.6}
